@@ -236,6 +236,17 @@ type Heap struct {
 	Name string
 	Sort string
 	Kind HeapKind
+	Elem int // 0: no reference content, 1: references (pointer/map/chan), 2: slices
+}
+
+func refKind(t types.Type) int {
+	switch t.Underlying().(type) {
+	case *types.Pointer, *types.Map, *types.Chan:
+		return 1
+	case *types.Slice:
+		return 2
+	}
+	return 0
 }
 
 func fieldHeapName(structT types.Type, field *types.Var) string {
@@ -249,18 +260,18 @@ func mapHeapNames(m *types.Map) (p, v, l string) {
 }
 
 func (s *Sorts) FieldHeap(structT types.Type, field *types.Var) Heap {
-	return Heap{Name: fieldHeapName(structT, field), Sort: "(Array Int " + q(s.SortOf(field.Type())) + ")", Kind: HField}
+	return Heap{Name: fieldHeapName(structT, field), Sort: "(Array Int " + q(s.SortOf(field.Type())) + ")", Kind: HField, Elem: refKind(field.Type())}
 }
 func (s *Sorts) CellHeap(t types.Type) Heap {
-	return Heap{Name: cellHeapName(t), Sort: "(Array Int " + q(s.SortOf(t)) + ")", Kind: HCell}
+	return Heap{Name: cellHeapName(t), Sort: "(Array Int " + q(s.SortOf(t)) + ")", Kind: HCell, Elem: refKind(t)}
 }
 func (s *Sorts) ElemHeap(t types.Type) Heap {
-	return Heap{Name: elemHeapName(t), Sort: "(Array Int (Array Int " + q(s.SortOf(t)) + "))", Kind: HElem}
+	return Heap{Name: elemHeapName(t), Sort: "(Array Int (Array Int " + q(s.SortOf(t)) + "))", Kind: HElem, Elem: refKind(t)}
 }
 func (s *Sorts) MapHeaps(m *types.Map) (p, v, l Heap) {
 	k := typeKey(m.Key()) + "$" + typeKey(m.Elem())
 	p = Heap{Name: "MP$" + k, Sort: "(Array Int (Array " + q(s.SortOf(m.Key())) + " Bool))", Kind: HMapP}
-	v = Heap{Name: "MV$" + k, Sort: "(Array Int (Array " + q(s.SortOf(m.Key())) + " " + q(s.SortOf(m.Elem())) + "))", Kind: HMapV}
+	v = Heap{Name: "MV$" + k, Sort: "(Array Int (Array " + q(s.SortOf(m.Key())) + " " + q(s.SortOf(m.Elem())) + "))", Kind: HMapV, Elem: refKind(m.Elem())}
 	l = Heap{Name: "ML$" + k, Sort: "(Array Int Int)", Kind: HMapL}
 	return
 }
